@@ -52,7 +52,7 @@ type kenv struct {
 const minStake = 15000000000
 
 func newKenv(r *gen.R, maxChains, maxJailed int64) *kenv {
-	sdk.VbCCache = sdk.NewCache(1) // capacity 1 = no caching of the by-chain list (as the keeper tests do)
+	sdk.VbCCache = sdk.NewCache(1200) // the production size (app/config.go); a capacity of 1 (keeper tests) disables the cache and hides aliasing of the cached list
 	codec.TestMode = 0
 	codec.UpgradeFeatureMap = map[string]int64{codec.NonCustodialUpdateKey: 1}
 	keyAcc := sdk.NewKVStoreKey(auth.StoreKey)
@@ -243,6 +243,8 @@ func keeperCase(r *gen.R, t *gen.Trace) {
 		codec.UpgradeFeatureMap[codec.EnforceMaxChainsUpdateKey] = featH
 	}
 	list, _ := e.nk.GetValidatorsByChain(ctx, chain)
+	list0 := append([]sdk.Address(nil), list...) // the candidates as first read (the cache now holds `list` itself)
+	list = list0
 	addrs := "-"
 	var recParts []string
 	if len(list) > 0 {
@@ -299,34 +301,55 @@ func keeperCase(r *gen.R, t *gen.Trace) {
 		if len(keys) > 0 {
 			ks = strings.Join(keys, ",")
 		}
-		draw := func() string {
-			res := "PANIC"
-			func() {
-				defer func() { recover() }()
-				nodes, err := pc.NewSessionNodes(ctx, ctx, e.nk, chain, append(pc.SessionKey(nil), key...), cnt)
-				if err != nil {
-					if err.Code() == pc.CodeInsufficientNodesError {
-						res = "insufficient"
-					} else {
-						res = fmt.Sprintf("err%d", err.Code())
+		draw := func(k pc.SessionKey) string {
+			return watch(func() string {
+				res := "PANIC"
+				func() {
+					defer func() { recover() }()
+					nodes, err := pc.NewSessionNodes(ctx, ctx, e.nk, chain, append(pc.SessionKey(nil), k...), cnt)
+					if err != nil {
+						if err.Code() == pc.CodeInsufficientNodesError {
+							res = "insufficient"
+						} else {
+							res = fmt.Sprintf("err%d", err.Code())
+						}
+						return
 					}
-					return
-				}
-				parts := make([]string, len(nodes))
-				for i, n := range nodes {
-					parts[i] = gen.Hex(n)
-				}
-				res = "ok " + strings.Join(parts, ",")
-			}()
-			return res
+					parts := make([]string, len(nodes))
+					for i, n := range nodes {
+						parts[i] = gen.Hex(n)
+					}
+					res = "ok " + strings.Join(parts, ",")
+				}()
+				return res
+			})
 		}
-		r1, r2 := draw(), draw()
-		same := "same"
-		if r1 != r2 {
-			same = "differs:" + strings.ReplaceAll(r2, " ", "_")
+		// this app's session, then the sessions of two other apps on the same (height, chain) - they share
+		// the cached candidate list - then this app's session again
+		r1 := draw(key)
+		mut, same := "intact", "same"
+		if now, _ := e.nk.GetValidatorsByChain(ctx, chain); !sameList(list0, now) {
+			mut = "mutated"
+		}
+		if r1 != "TIMEOUT" {
+			for o := 0; o < 2 && !stuck; o++ {
+				ok, _ := pc.NewSessionKey(hex.EncodeToString(r.Bytes(32)), chain, blockHash)
+				if draw(ok) == "TIMEOUT" {
+					same = "differs:TIMEOUT(other-app)"
+				}
+			}
+			if !stuck {
+				if r2 := draw(key); r1 != r2 {
+					same = "differs:" + strings.ReplaceAll(r2, " ", "_")
+				}
+			}
+			if now, _ := e.nk.GetValidatorsByChain(ctx, chain); !sameList(list0, now) {
+				mut = "mutated"
+			}
 		}
 		// the last word is the keeper history that produced this population (a failing line is self-contained)
-		t.Line("sess", strings.HasPrefix(r1, "ok"), "sess %d %d %d %d %s %s %s %s hist:%s => %s %s",
-			cnt, featH, e.height, e.nk.MaxChains(ctx), chain, addrs, recs, ks, history, r1, same)
+		t.Line("sess", strings.HasPrefix(r1, "ok"), "sess %d %d %d %d %s %s %s %s hist:%s => %s %s %s",
+			cnt, featH, e.height, e.nk.MaxChains(ctx), chain, addrs, recs, ks, history, r1, same, mut)
+		finishIfStuck(t)
 	}
 }
